@@ -21,8 +21,10 @@ def run(ctx, rep):
     exceptions.rule_catchable_classes(ctx, rep, "C16-R3", only_pred=_in_family, floor=1)
     textparse.rule_negative_positions(ctx, rep, "C16-R4", only=_in_family, floor=3)
     textparse.rule_sibling_index_readers(ctx, rep, "C16-R5")
-    textparse.rule_script_whitespace(ctx, rep, "C16-R6", only=_in_family)
+    textparse.rule_script_whitespace(ctx, rep, "C16-R6", only=_in_family, pattern_modules=("vm",))
     optargs.rule_missing_is_undefined(ctx, rep, "C16-R7", lambda f: _in_family(f.qual), "the String methods and constructor", floor=5)
     builtins.rule_template_single_pass(ctx, rep, "C16-R8")
     optargs.rule_integer_argument_consulted(ctx, rep, "C16-R9", lambda f: _in_family(f.qual), "the String methods", floor=3)
+    textparse.rule_nan_position_means_end(ctx, rep, "C16-R10")
+    textparse.rule_raw_number_subscripts(ctx, rep, "C16-R11")
     rep.undecided += ["the method result tables over the argument grid (values, not shape): a runtime differential, outside static analysis"]
